@@ -95,6 +95,11 @@ func extractDestinationFromData(data []byte, destinationLength int) (destination
 	dest := destination.Destination{
 		KeysAndCert: keysAndCert,
 	}
+	// Apply the Destination key-type policy (no ML-KEM crypto types, no RSA or Ed25519ph signing
+	// types) exactly as destination.ReadDestination does; wrapping ReadKeysAndCert alone skipped it.
+	if _, err := destination.NewDestination(keysAndCert); err != nil {
+		return destination.Destination{}, nil, err
+	}
 	remainder := data[destinationLength:]
 
 	return dest, remainder, nil
